@@ -323,6 +323,66 @@ func makeCaseTrap(c *core.Ctx, nRefs, L, nQueries int, trap bool) (*gen.RefCase,
 		}
 		c.Count("low_complexity_cases", 1)
 	}
+	if nRefs <= 100 && c.Rng.Intn(5) == 0 {
+		// rearranged amplicons: a query of 150-400 bases, a reference that is the same sequence with a
+		// block moved (circular permutation: it shares every 4-mer with the query, so it is the first
+		// candidate examined, yet lies far away), and in-order variants of the query at a range of
+		// distances around it. Whatever is assumed from the first candidate must not hide the others.
+		r := c.Rng
+		for g := 0; g < 1+r.Intn(3); g++ {
+			n := 150 + r.Intn(250)
+			q := gen.DNA(r, n)
+			cut := n/4 + 10 + r.Intn(n/2-20)
+			rc.Refs = append(rc.Refs, append(append([]byte{}, q[cut:]...), q[:cut]...))
+			rc.Fam = append(rc.Fam, -1)
+			// in-order variants of the query whose true distance lies just below that of the rearranged
+			// copy (substitutions are added until the full-matrix distance reaches the target)
+			moved := rc.Refs[len(rc.Refs)-1]
+			l0, a0 := ref.LCS(q, moved, ref.Compatible)
+			far := a0 - l0
+			perm := r.Perm(n)
+			backs := []int{1, 2 + r.Intn(3), 6 + r.Intn(6), 14 + r.Intn(10), 30 + r.Intn(20), far / 2}
+			backs = backs[:r.Intn(len(backs)+1)] // from "the rearranged copy alone" to "variants down to half its distance"
+			for _, back := range backs {
+				target := far - back
+				if target < 1 {
+					continue
+				}
+				lo, hi := 0, n // number of substituted positions
+				variant := func(m int) []byte {
+					v := append([]byte{}, q...)
+					for _, p := range perm[:m] {
+						v[p] = gen.ACGT[(strings.IndexByte(string(gen.ACGT), v[p])+1+int(perm[p])%3)%4]
+					}
+					return v
+				}
+				dist := func(m int) int {
+					l, a := ref.LCS(q, variant(m), ref.Compatible)
+					return a - l
+				}
+				for lo < hi { // smallest m with distance >= target
+					mid := (lo + hi) / 2
+					if dist(mid) >= target {
+						hi = mid
+					} else {
+						lo = mid + 1
+					}
+				}
+				if dist(lo) >= far {
+					continue
+				}
+				rc.Refs = append(rc.Refs, variant(lo))
+				rc.Fam = append(rc.Fam, -1)
+			}
+			at := r.Intn(len(rc.Queries))
+			rc.Queries[at], rc.QKind[at] = q, "rearranged"
+			if r.Intn(2) == 0 {
+				at = r.Intn(len(rc.Queries))
+				rc.Queries[at], rc.QKind[at] = gen.Mutate(r, q, r.Intn(4)), "rearranged"
+			}
+		}
+		c.Count("rearranged_cases", 1)
+	}
 	spec := gen.Taxonomy(c.Rng, 1+c.Rng.Intn(40))
 	node := gen.AssignTaxa(c.Rng, rc, spec)
 	self := -1
@@ -739,7 +799,7 @@ func init() {
 		Level: "exploration",
 		Rule: "reference sets of 5-300 sequences over a,c,g,t (families of related sequences, near-duplicates at 0-6 edits, exact duplicates, lengths within +-30 %, unrelated sequences, 0-3 constructed tie groups: a query, a longer reference at distance k (insertions / extra end letters) and references at distance k, k-1, k+1 through spread substitutions / deletions sharing few 4-mers; for obitag2 also sets of >1001 near-identical references; for the index, in one case out of two, a constellation of a copy of the indexed sequence and two much longer references on the same ancestor taxon plus a reference at 1-2 substitutions on the parent of that ancestor), random taxonomies of 1-40 nodes (4 shapes) assigned to the references at random or correlated with the sequence families; queries = references with 0-8 edits, unrelated sequences, tie-group queries. " +
 			"Every answer of the real obitag.FindClosests / obitag2.FindClosests / obirefidx.IndexSequence / obitag.Identify (alone and from 8 goroutines) is compared with a brute force over ALL references using the harness's own full-matrix LCS DP and parent-array LCA. " +
-			"Added later: sub-check assign through obitag.CLIAssignTaxonomy with references of unknown taxid at every position, low-complexity amplicons (a common repeat of 260-560 nt), the >1001-reference cases also for obitag. " +
+			"Added later: sub-check assign through obitag.CLIAssignTaxonomy with references of unknown taxid at every position, low-complexity amplicons (a common repeat of 260-560 nt), the >1001-reference cases also for obitag. rearranged amplicons (a circular permutation of the query, which shares all its 4-mers and is examined first, next to in-order variants whose true distance lies just below), refidx-e2e: the obirefidx command on databases whose records already carry an index computed on an older, smaller reference set. " +
 			"distinct_nontrivial = distinct (database size class, best distance, number of tied best references class, tied references shorter/longer than the query, query kind) of queries with a tie or a non-zero best distance (closest, closest2); (size class, number of index entries >= 2, depth of the taxon) (index); (ties, distance, distinct taxa among the best >= 2 or ties, depth of the assigned taxon) (identify)",
 		Assume: []string{
 			"sequences are over a,c,g,t, at least 8 letters (the 4-mer bound does not hold for ambiguity codes; Encode4mer needs >= 4 letters)",
@@ -754,7 +814,9 @@ func init() {
 			{Name: "closest2", N: core.Const(150, 3000), Run: runClosestWith(obitag2.FindClosests, true)},
 			{Name: "closest", N: core.Const(300, 6000), Run: runClosestWith(obitag.FindClosests, false)},
 			{Name: "assign", N: core.Const(60, 600), Run: runAssign},
+			{Name: "refidx-e2e", N: core.Const(24, 240), Run: runRefidxE2E},
 		},
+		Cmds:          []string{"obirefidx"},
 		MinNontrivial: 200,
 		RaceFiles:     anchored,
 		Post: func(tier string, counters map[string]int64) (inconclusive []string) {
